@@ -1393,3 +1393,240 @@ Proof.
   - exact (proj1 (tunnel_is_identity_upto_root_proof mid p Hinj Hwf Hb)).
   - exact (native_filtered_is_restriction_proof enabled p Hwf).
 Qed.
+
+(** * Restriction commutes with [normalise] *)
+Fixpoint incr_ids (b : N) (calls : list scall) : bool :=
+  match calls with
+  | [] => true
+  | SNewSpan id _ _ _ :: r => (b <? id)%N && incr_ids id r
+  | _ :: r => incr_ids b r
+  end.
+Fixpoint incr_end (b : N) (calls : list scall) : N :=
+  match calls with
+  | [] => b
+  | SNewSpan id _ _ _ :: r => incr_end id r
+  | _ :: r => incr_end b r
+  end.
+
+Lemma incr_ids_app a : ∀ b c, incr_ids b (a ++ c) = incr_ids b a && incr_ids (incr_end b a) c.
+Proof.
+  induction a as [|x a IH]; intros b c; [reflexivity|].
+  cbn [app incr_ids incr_end]. destruct x; rewrite ?IH, ?andb_assoc; reflexivity.
+Qed.
+Lemma incr_end_app a : ∀ b c, incr_end b (a ++ c) = incr_end (incr_end b a) c.
+Proof. induction a as [|x a IH]; intros b c; [reflexivity|]. cbn [app incr_end]. destruct x; apply IH. Qed.
+
+Lemma incr_reg fs cs b :
+  incr_ids b (fst (front_register fs cs)) = true ∧ incr_end b (fst (front_register fs cs)) = b.
+Proof. unfold front_register. destruct (registered fs cs); done. Qed.
+
+Lemma incr_front_step enabled sites fs o calls fs' pn :
+  front_step host_alloc enabled sites fs o = (calls, fs', pn) →
+  incr_ids (fs_allocs fs) calls = true ∧ incr_end (fs_allocs fs) calls = fs_allocs fs'.
+Proof.
+  destruct o as [cs p vals|k vals|k|k|k|k|k t|cs p vals]; cbn [front_step]; intros H.
+  - pose proof (incr_reg fs cs (fs_allocs fs)) as [Hr1 Hr2].
+    destruct (front_register fs cs) as [reg regs]. cbn [fst] in *. unfold host_alloc in H.
+    destruct (enabled cs); injection H as <- <- <-.
+    + rewrite incr_ids_app, incr_end_app, Hr1, Hr2. cbn [incr_ids incr_end fs_allocs andb].
+      split; [|reflexivity]. rewrite andb_true_r. apply N.ltb_lt. lia.
+    + rewrite Hr1, Hr2. done.
+  - destruct (nth_error (fs_spans fs) k) as [[? [?|]]|]; injection H as <- <- <-; done.
+  - destruct (fs_span_id fs k); injection H as <- <- <-; done.
+  - destruct (fs_span_id fs k); injection H as <- <- <-; done.
+  - destruct (fs_span_id fs k); injection H as <- <- <-; done.
+  - destruct (fs_span_id fs k); injection H as <- <- <-; done.
+  - destruct (fs_span_id fs k); [destruct t as [j|raw]; [destruct (fs_span_id fs j)|]|];
+      injection H as <- <- <-; done.
+  - pose proof (incr_reg fs cs (fs_allocs fs)) as [Hr1 Hr2].
+    destruct (front_register fs cs) as [reg regs]. cbn [fst] in *. injection H as <- <- <-.
+    rewrite incr_ids_app, incr_end_app, Hr1, Hr2. destruct (enabled cs); done.
+Qed.
+
+Lemma incr_front_steps enabled sites ops : ∀ fs,
+  incr_ids (fs_allocs fs) (fst (front_steps host_alloc enabled sites fs ops)) = true.
+Proof.
+  induction ops as [|o r IH]; intros fs; [reflexivity|]. cbn [front_steps].
+  destruct (front_step host_alloc enabled sites fs (snd o)) as [[calls fs'] pn] eqn:E.
+  destruct (incr_front_step _ _ _ _ _ _ _ E) as [H1 H2]. destruct pn; [exact H1|].
+  specialize (IH fs'). destruct (front_steps host_alloc enabled sites fs' r) as [rest b].
+  cbn [fst] in *. rewrite incr_ids_app, H1, H2. exact IH.
+Qed.
+
+Record CInv (m : gmap N N) (n b : N) (ce ca : gmap N N) : Prop := mk_cinv {
+  ci_cnt : ∀ id i, m !! id = Some i → ce !! i = ca !! id;
+  ci_inj : ∀ id id' i, m !! id = Some i → m !! id' = Some i → id = id';
+  ci_n : ∀ id i, m !! id = Some i → (i <= n)%N;
+  ci_b : ∀ id i, m !! id = Some i → (id <= b)%N }.
+
+Lemma CInv_init : CInv ∅ 0 0 ∅ ∅.
+Proof. split; intros *; rewrite lookup_empty; discriminate. Qed.
+
+Lemma CInv_fresh m n b ce ca id : CInv m n b ce ca → (b < id)%N → m !! id = None.
+Proof.
+  intros HC Hlt. destruct (m !! id) as [i|] eqn:E; [|reflexivity].
+  pose proof (ci_b _ _ _ _ _ HC id i E). lia.
+Qed.
+
+Lemma CInv_new_enabled m n b ce ca id :
+  CInv m n b ce ca → (b < id)%N →
+  CInv (<[id := (n + 1)%N]> m) (n + 1) id (<[(n + 1)%N := 1%N]> ce) (<[id := 1%N]> ca).
+Proof.
+  intros HC Hlt. pose proof (CInv_fresh _ _ _ _ _ _ HC Hlt) as Hf. destruct HC as [H1 H2 H3 H4]. split.
+  - intros id' i Hm. apply lookup_insert_Some in Hm as [[<- <-]|[Hne Hm]].
+    + rewrite !lookup_insert. reflexivity.
+    + pose proof (H3 _ _ Hm). rewrite !lookup_insert_ne by (try congruence; lia). exact (H1 _ _ Hm).
+  - intros id1 id2 i Hm1 Hm2.
+    apply lookup_insert_Some in Hm1 as [[<- <-]|[Hne1 Hm1]]; apply lookup_insert_Some in Hm2 as [[<- Hi]|[Hne2 Hm2]];
+      try reflexivity.
+    + pose proof (H3 _ _ Hm2). lia.
+    + pose proof (H3 _ _ Hm1). lia.
+    + exact (H2 _ _ _ Hm1 Hm2).
+  - intros id' i Hm. apply lookup_insert_Some in Hm as [[<- <-]|[Hne Hm]]; [lia|]. pose proof (H3 _ _ Hm). lia.
+  - intros id' i Hm. apply lookup_insert_Some in Hm as [[<- <-]|[Hne Hm]]; [lia|]. pose proof (H4 _ _ Hm). lia.
+Qed.
+
+(** the unfiltered counts change at an id the restriction does not know *)
+Lemma CInv_ca_other m n b b' ce ca ca' id :
+  CInv m n b ce ca → m !! id = None → (b <= b')%N →
+  (∀ id', id' ≠ id → ca' !! id' = ca !! id') → CInv m n b' ce ca'.
+Proof.
+  intros [H1 H2 H3 H4] Hn Hb Hca. split; try done.
+  - intros id' i Hm. rewrite Hca by congruence. exact (H1 _ _ Hm).
+  - intros id' i Hm. pose proof (H4 _ _ Hm). lia.
+Qed.
+
+(** both counts change at corresponding ids *)
+Lemma CInv_both m n b ce ca ce' ca' id i :
+  CInv m n b ce ca → m !! id = Some i → ce' !! i = ca' !! id →
+  (∀ j, j ≠ i → ce' !! j = ce !! j) → (∀ id', id' ≠ id → ca' !! id' = ca !! id') →
+  CInv m n b ce' ca'.
+Proof.
+  intros [H1 H2 H3 H4] Hm He Hce Hca. split; try done.
+  intros id' i' Hm'. destruct (decide (id' = id)) as [->|Hne].
+  - assert (i' = i) by congruence. subst i'. exact He.
+  - rewrite Hca by exact Hne. rewrite Hce; [exact (H1 _ _ Hm')|].
+    intros ->. apply Hne. exact (H2 _ _ _ Hm' Hm).
+Qed.
+
+Lemma restrict_pk_of m p : pkind_of (restrict_parent m p) = restrict_pk m (pkind_of p).
+Proof. destruct p as [| |q]; cbn [restrict_parent pkind_of restrict_pk]; try reflexivity. destruct (m !! q); reflexivity. Qed.
+
+Lemma norm_restrict_commute pred sites calls : ∀ m n b ce ca,
+  CInv m n b ce ca → incr_ids b calls = true →
+  norm_go sites ce (restrict_go (site_enabled pred sites) m n calls)
+  = restrict_hgo pred m n (norm_go sites ca calls).
+Proof.
+  induction calls as [|c r IH]; intros m n b ce ca HC Hi; [reflexivity|].
+  rewrite (norm_go_cons sites ca). cbn [restrict_go incr_ids] in *.
+  destruct c as [cs|id cs p vals|id vals|id|id|id|id|id f|cs p vals]; cbn [restrict_step norm_step fst snd app].
+  - (* register *)
+    rewrite norm_go_cons. cbn [norm_step fst snd app restrict_hgo restrict_hstep]. f_equal. exact (IH _ _ _ _ _ HC Hi).
+  - (* new span *)
+    apply andb_true_iff in Hi as [Hlt Hi]. apply N.ltb_lt in Hlt.
+    cbn [restrict_hgo restrict_hstep]. unfold site_enabled at 1. destruct (pred (site_data sites cs)).
+    + cbn [app]. rewrite norm_go_cons. cbn [norm_step fst snd app]. rewrite restrict_pk_of. f_equal.
+      exact (IH _ _ _ _ _ (CInv_new_enabled _ _ _ _ _ _ HC Hlt) Hi).
+    + cbn [app]. apply (IH _ _ id _ _); [|exact Hi].
+      apply (CInv_ca_other _ _ b _ _ _ _ id HC (CInv_fresh _ _ _ _ _ _ HC Hlt)); [lia|].
+      intros id' Hne. apply lookup_insert_ne. congruence.
+  - (* record *)
+    cbn [restrict_hgo restrict_hstep]. destruct (m !! id) as [i|]; cbn [app].
+    + rewrite norm_go_cons. cbn [norm_step fst snd app]. f_equal. exact (IH _ _ _ _ _ HC Hi).
+    + exact (IH _ _ _ _ _ HC Hi).
+  - (* enter *)
+    cbn [restrict_hgo restrict_hstep]. destruct (m !! id) as [i|]; cbn [app].
+    + rewrite norm_go_cons. cbn [norm_step fst snd app]. f_equal. exact (IH _ _ _ _ _ HC Hi).
+    + exact (IH _ _ _ _ _ HC Hi).
+  - (* exit *)
+    cbn [restrict_hgo restrict_hstep]. destruct (m !! id) as [i|]; cbn [app].
+    + rewrite norm_go_cons. cbn [norm_step fst snd app]. f_equal. exact (IH _ _ _ _ _ HC Hi).
+    + exact (IH _ _ _ _ _ HC Hi).
+  - (* clone *)
+    destruct (m !! id) as [i|] eqn:Em; cbn [app].
+    + rewrite norm_go_cons. cbn [norm_step fst snd app]. rewrite (ci_cnt _ _ _ _ _ HC id i Em).
+      destruct (ca !! id) as [c|] eqn:Ec; [|exact (IH _ _ _ _ _ HC Hi)].
+      apply (IH _ _ b _ _); [|exact Hi]. apply (CInv_both _ _ _ _ _ _ _ id i HC Em).
+      * rewrite !lookup_insert. reflexivity.
+      * intros j Hj. apply lookup_insert_ne. congruence.
+      * intros j Hj. apply lookup_insert_ne. congruence.
+    + apply (IH _ _ b _ _); [|exact Hi]. apply (CInv_ca_other _ _ b _ _ _ _ id HC Em); [lia|].
+      intros id' Hne. destruct (ca !! id); [apply lookup_insert_ne; congruence | reflexivity].
+  - (* close *)
+    destruct (m !! id) as [i|] eqn:Em; cbn [app].
+    + rewrite norm_go_cons. cbn [norm_step]. rewrite (ci_cnt _ _ _ _ _ HC id i Em).
+      destruct (ca !! id) as [c|] eqn:Ec.
+      * destruct (c <=? 1)%N; cbn [fst snd app restrict_hgo restrict_hstep]; rewrite ?Em; cbn [app].
+        -- f_equal. apply (IH _ _ b _ _); [|exact Hi]. apply (CInv_both _ _ _ _ _ _ _ id i HC Em).
+           ++ rewrite !lookup_delete. reflexivity.
+           ++ intros j Hj. apply lookup_delete_ne. congruence.
+           ++ intros j Hj. apply lookup_delete_ne. congruence.
+        -- apply (IH _ _ b _ _); [|exact Hi]. apply (CInv_both _ _ _ _ _ _ _ id i HC Em).
+           ++ rewrite !lookup_insert. reflexivity.
+           ++ intros j Hj. apply lookup_insert_ne. congruence.
+           ++ intros j Hj. apply lookup_insert_ne. congruence.
+      * cbn [fst snd app restrict_hgo restrict_hstep]. rewrite Em. cbn [app]. f_equal. exact (IH _ _ _ _ _ HC Hi).
+    + destruct (ca !! id) as [c|] eqn:Ec; [destruct (c <=? 1)%N|];
+        cbn [fst snd app restrict_hgo restrict_hstep]; rewrite ?Em; cbn [app].
+      * apply (IH _ _ b _ _); [|exact Hi]. apply (CInv_ca_other _ _ b _ _ _ _ id HC Em); [lia|].
+        intros id' Hne. apply lookup_delete_ne. congruence.
+      * apply (IH _ _ b _ _); [|exact Hi]. apply (CInv_ca_other _ _ b _ _ _ _ id HC Em); [lia|].
+        intros id' Hne. apply lookup_insert_ne. congruence.
+      * exact (IH _ _ _ _ _ HC Hi).
+  - (* follows *)
+    cbn [restrict_hgo restrict_hstep]. destruct (m !! id) as [a|]; [destruct (m !! f) as [b'|]|]; cbn [app].
+    + rewrite norm_go_cons. cbn [norm_step fst snd app]. f_equal. exact (IH _ _ _ _ _ HC Hi).
+    + exact (IH _ _ _ _ _ HC Hi).
+    + exact (IH _ _ _ _ _ HC Hi).
+  - (* event *)
+    cbn [restrict_hgo restrict_hstep]. unfold site_enabled at 1. destruct (pred (site_data sites cs)); cbn [app].
+    + rewrite norm_go_cons. cbn [norm_step fst snd app]. rewrite restrict_pk_of. f_equal. exact (IH _ _ _ _ _ HC Hi).
+    + exact (IH _ _ _ _ _ HC Hi).
+Qed.
+
+Lemma restrict_hgo_cons pred m n c r :
+  restrict_hgo pred m n (c :: r)
+  = fst (fst (restrict_hstep pred m n c))
+    ++ restrict_hgo pred (snd (fst (restrict_hstep pred m n c))) (snd (restrict_hstep pred m n c)) r.
+Proof. cbn [restrict_hgo]. destruct (restrict_hstep pred m n c) as [[? ?] ?]. reflexivity. Qed.
+
+Lemma strip_reg_restrict pred calls : ∀ m n,
+  strip_reg (restrict_hgo pred m n calls) = restrict_hgo pred m n (strip_reg calls).
+Proof.
+  induction calls as [|c r IH]; intros m n; [reflexivity|].
+  rewrite restrict_hgo_cons, strip_reg_app, IH.
+  destruct c; cbn [restrict_hstep strip_reg List.filter is_hregister negb fst snd app];
+    try (rewrite restrict_hgo_cons; cbn [restrict_hstep fst snd]; f_equal;
+         repeat match goal with |- context [match ?x with _ => _ end] => destruct x end; reflexivity).
+  reflexivity.
+Qed.
+
+Lemma unroot_restrict_pk m p : unroot_pk (restrict_pk m (unroot_pk p)) = unroot_pk (restrict_pk m p).
+Proof. destruct p as [| |q]; cbn [unroot_pk restrict_pk]; try reflexivity. Qed.
+
+Lemma unroot_restrict pred calls : ∀ m n,
+  map unroot (restrict_hgo pred m n (map unroot calls)) = map unroot (restrict_hgo pred m n calls).
+Proof.
+  induction calls as [|c r IH]; intros m n; [reflexivity|].
+  cbn [map]. rewrite !restrict_hgo_cons, !map_app.
+  destruct c; cbn [unroot restrict_hstep fst snd];
+    repeat match goal with |- context [if ?x then _ else _] => destruct x end;
+    repeat match goal with |- context [match ?x with Some _ => _ | None => _ end] => destruct x end;
+    cbn [fst snd map unroot app]; rewrite ?IH, ?unroot_restrict_pk; reflexivity.
+Qed.
+
+(** ** C13 (3b) in its direct form: what the filtering host sees natively is the tunnelled trace
+    restricted to the call sites it enables, up to the spelling of explicit roots *)
+Theorem enabled_subtrace_proof pred mid p :
+  (∀ a b, mid a = mid b → a = b) →
+  wf_prog_b p = true → (spans_created (p_ops p) <= U32 - 1)%N →
+  map unroot (strip_reg (normalise (p_sites p) (native_calls (site_enabled pred (p_sites p)) p)))
+  = map unroot (restrict_hcalls pred (strip_reg (tunnel_calls mid p))).
+Proof.
+  intros Hinj Hwf Hb. rewrite (native_filtered_is_restriction_proof _ p Hwf).
+  rewrite (proj1 (tunnel_is_identity_upto_root_proof mid p Hinj Hwf Hb)).
+  unfold normalise, restrict_calls, restrict_hcalls.
+  rewrite (norm_restrict_commute pred (p_sites p) _ ∅ 0 0 ∅ ∅ CInv_init).
+  - rewrite strip_reg_restrict, unroot_restrict. reflexivity.
+  - unfold native_calls, front_run. exact (incr_front_steps all_enabled (p_sites p) (p_ops p) front_init).
+Qed.
